@@ -225,10 +225,15 @@ theorem handler_registered_before_push {s : State} (h : Reachable s) {r : Mon}
     · exact absurd h1 hph
     · rw [hsk] at h1; cases h1
 
-/-- **the cascade's finish notification fires exactly once** (over the split steps of `AddEvent`):
-    never twice; and for a root handed over with a triggering event, once no engine step is enabled
-    and every monitor is finished, the finish handler has run exactly once. For a skipped
-    (non-triggering) root event no handler observer is ever registered and it runs zero times. -/
+/-- **finish notification**: the finished message is posted at most once and the finish handler runs
+    at most once. For a root handed over with a TRIGGERING event: once no engine step is enabled and
+    every monitor is finished, the handler has run exactly once. For a root event that does NOT
+    trigger (`AddEvent` returns nil: the event is "skipped" / "discarded right away", engine.md) the
+    handler runs ZERO times — no observer is registered on that path (processor.go, behind
+    `IsTriggering`), although the monitor ends finished and the message is posted to nobody.
+    DECLARED READING (props/C02.py assumptions): a discarded event starts no cascade, so "the
+    cascade's finish notification fires exactly once" does not apply to it; read literally, the doc
+    comment of `SetFinishHandler` ("called once this monitor has finished") would ask for a call. -/
 theorem finish_notification_exactly_once {s : State} (h : Reachable s) :
     s.posted ≤ 1 ∧ s.handlerCalls ≤ 1 ∧
     (∀ r, s.mons[0]? = some r → r.phase ≠ .fresh →
@@ -325,7 +330,7 @@ theorem errors_exact_at_handler {s : State} (h : Reachable s) (hw : 0 < s.handle
     task while a failing task is between `SetErrors` and `Finish`) every entry `AllErrors()` returns
     is a non-nil error object of a monitor whose action(s) really failed, holding exactly that
     monitor's failed rules. That the Go function has no failing branch (no asserting accessor) is
-    the source fact `src_all_errors_calls_no_asserting_accessor`; `Ecal.Cascade.allErrors` is total. -/
+    the source fact `src_all_errors_never_asserts`; `Ecal.Cascade.allErrors` is total. -/
 theorem allErrors_safe {s : State} (h : Reachable s) :
     ∀ k e, (k, e) ∈ allErrors s → ∃ m, s.mons[k]? = some m ∧ m.failed ≠ [] ∧ e = some m.failed := by
   intro k e hke
@@ -667,44 +672,49 @@ theorem failed_is_history {s s' : State} {e : Event} (hs : step s e = some s') {
 
 /-! ### source facts (regenerated from the tree under test on every run: `lean/Ecal/Gen/C02.lean`)
 
-What ties the granularity of the model's events to the Go text: each fact is computed by the go/ast
-extractor `harness C02 -tool facts` (three-valued) and has to be `some true`. -/
+What ties the granularity of the model's events to the Go text. Each fact is computed by the go/ast
+extractor `harness C02 -tool facts`: traces of the functions with same-package helpers inlined under
+the caller's lock state, the lock identified as the mutex field of the struct that owns the data
+(whatever its name). Three-valued: `some true`, `some false` (REFUTED), `none` (not established).
+Only a refuted fact breaks an obligation: every theorem says `≠ some false`; a `none` is an
+evidence note and amplifies the search of the run (props/C02.py). -/
 
 def srcFact (n : String) : Option Bool := (Ecal.Gen.C02.facts.find? (·.1 == n)).bind (·.2)
 
-/-- `descendantFinished` decrements `unfinished` and evaluates the zero test inside ONE critical
-    section of the root's lock (`finishOne` is one event) -/
-theorem src_zero_test_inside_critical_section : srcFact "zeroTestInsideCriticalSection" = some true := by decide
-/-- … and calls `PostEvent` after the lock was released (`post` is a separate event) -/
-theorem src_post_outside_critical_section : srcFact "postOutsideCriticalSection" = some true := by decide
-/-- every write of `unfinished` in package engine happens under the root's lock (`newChild`, `finishOne` are atomic) -/
-theorem src_counter_writes_under_lock : srcFact "counterWritesUnderLock" = some true := by decide
-/-- `SetErrors` attaches the error object before it enters the monitor into `RootMonitor.errors`
+/-- every read of `unfinished` (the zero test) happens with the root monitor's mutex held -/
+theorem src_zero_test_inside_critical_section : srcFact "zeroTestInsideCriticalSection" ≠ some false := by decide
+/-- no `Unlock` of that mutex between a decrement/increment of `unfinished` and the read that follows
+    it on the same path: the zero test belongs to the critical section of ITS decrement (`finishOne` is one event) -/
+theorem src_zero_test_in_section_of_decrement : srcFact "zeroTestInCriticalSectionOfTheDecrement" ≠ some false := by decide
+/-- `PostEvent` is called with the mutex released (`post` is a separate event) -/
+theorem src_post_outside_critical_section : srcFact "postOutsideCriticalSection" ≠ some false := by decide
+/-- every write of `unfinished`, `errors`, `incomplete` (after construction) happens under the mutex -/
+theorem src_counter_writes_under_lock : srcFact "counterWritesUnderLock" ≠ some false := by decide
+/-- `SetErrors`: the error object is attached before the monitor enters `RootMonitor.errors`
     (`setErrors` is one event; `allErrors_safe` has no nil entry) -/
-theorem src_error_attached_before_registered : srcFact "errorAttachedBeforeRegistered" = some true := by decide
-/-- `Finish`: `finished = true`, then `descendantFinished` -/
-theorem src_finished_flag_before_count : srcFact "finishedFlagBeforeCount" = some true := by decide
-/-- `Task.Run` finishes the monitor only after `ProcessEvent` returned (guard of `newChild`) -/
-theorem src_finish_after_process_event : srcFact "finishAfterProcessEvent" = some true := by decide
-/-- `Task.HandleError`: `SetErrors`, `Finish`, error observer — in this order -/
-theorem src_handle_error_order : srcFact "handleErrorOrder" = some true := by decide
-/-- `AddEventAndWait`: observer registered, then `AddEvent`, then `wg.Wait` (`register` needs a fresh root) -/
-theorem src_wait_observer_before_add_event : srcFact "waitObserverBeforeAddEvent" = some true := by decide
-/-- `AddEvent`: `IsTriggering`, finish-handler observer, `Activate`, `pool.AddTask` — in this order
-    (`regHandler` before `addEvent 0 true`) -/
-theorem src_handler_observer_before_add_task : srcFact "handlerObserverBeforeAddTask" = some true := by decide
-/-- `newMonID` reads and increments the id counter in one critical section (monitor ids are distinct) -/
-theorem src_monitor_id_alloc_in_critical_section : srcFact "monitorIdAllocInCriticalSection" = some true := by decide
-/-- `AllErrors` reads the error map under the root's lock -/
-theorem src_all_errors_under_lock : srcFact "allErrorsUnderLock" = some true := by decide
-/-- `AllErrors` calls no asserting accessor (`Errors()`, `EventPath()`, `AssertTrue`, …): the Go
-    function has no failing branch, as `Ecal.Cascade.allErrors` (da28f66) -/
-theorem src_all_errors_calls_no_asserting_accessor :
-    Ecal.Gen.C02.allErrorsCalls.all (fun c =>
-      !(["Errors", "EventPath", "EventPathString", "AssertTrue", "AssertOk", "String", "Error", "panic"].contains c)) = true := by
-  decide
+theorem src_error_attached_before_registered : srcFact "errorAttachedBeforeRegistered" ≠ some false := by decide
+/-- `Finish`: `finished = true` before the counter is decremented -/
+theorem src_finished_flag_before_count : srcFact "finishedFlagBeforeCount" ≠ some false := by decide
+/-- `Task.Run`: no monitor is declared finished before `ProcessEvent` returned (guard of `newChild`) -/
+theorem src_finish_after_process_event : srcFact "finishAfterProcessEvent" ≠ some false := by decide
+/-- `Task.HandleError`: error attached, monitor finished, error observer — in this order -/
+theorem src_handle_error_order : srcFact "handleErrorOrder" ≠ some false := by decide
+/-- `AddEventAndWait`: an observer is registered (outside `AddEvent`) before `AddEvent` is called (`register` needs a fresh root) -/
+theorem src_wait_observer_before_add_event : srcFact "waitObserverBeforeAddEvent" ≠ some false := by decide
+/-- `AddEventAndWait` waits unconditionally: no `select` with several cases, no timer/context on its
+    path (`waitReturns` needs `released > 0`; a time-out would let it return earlier) -/
+theorem src_wait_is_unconditional : srcFact "waitIsUnconditional" ≠ some false := by decide
+/-- `AddEvent`: the finish-handler observer is registered before `pool.AddTask` (`regHandler` before `addEvent 0 true`) -/
+theorem src_handler_observer_before_add_task : srcFact "handlerObserverBeforeAddTask" ≠ some false := by decide
+/-- `newMonID`: counter read and incremented in one critical section, or by one atomic add (monitor ids are distinct) -/
+theorem src_monitor_id_alloc_in_critical_section : srcFact "monitorIdAllocInCriticalSection" ≠ some false := by decide
+/-- `AllErrors` reads the error map under the mutex -/
+theorem src_all_errors_under_lock : srcFact "allErrorsUnderLock" ≠ some false := by decide
+/-- the call tree of `AllErrors` inside package engine (helpers inlined, whatever they are called)
+    contains no assertion / panic: the Go function has no failing branch, as `Ecal.Cascade.allErrors` (da28f66) -/
+theorem src_all_errors_never_asserts : srcFact "allErrorsNeverAsserts" ≠ some false := by decide
 /-- `EventPump.PostEvent` calls only callbacks registered for the posting source (or for all sources) -/
-theorem src_post_filters_by_source : srcFact "postFiltersBySource" = some true := by decide
+theorem src_post_filters_by_source : srcFact "postFiltersBySource" ≠ some false := by decide
 
 /-! ### several cascades in flight -/
 
@@ -726,8 +736,11 @@ theorem conc_view_reachable {C : Conc} (h : C.Reachable) {r : Nat} {v : State} (
     Reachable v :=
   conc_view_reachable_lem h hv
 
-/-- `errors_exact` + `wait_after_cascade` for a cascade running beside others on the shared pump:
-    its report holds exactly its own failed (event, rule) entries — nothing of another cascade -/
+/-- `errors_exact` + `wait_after_cascade` for a cascade running beside others on the shared pump.
+    NOTE: that the report holds nothing of ANOTHER cascade is by construction here (the error map is
+    root-local in the model as `RootMonitor.errors` is in Go); what could leak in Go — a task run
+    with another root's monitor, colliding monitor ids — is covered by the fact
+    `src_monitor_id_alloc_in_critical_section` and TESTED by the harness field `foreign=`. -/
 theorem conc_errors_exact {C : Conc} (h : C.Reachable) {r : Nat} {v : State} (hv : C.view r = some v)
     (hw : 0 < v.released) :
     allErrors v = expectedReport v ∧ ∀ m ∈ v.mons, m.phase.finished = true ∧ m.todo = [] := by
